@@ -94,6 +94,18 @@ def d_same_on():
     >>> print("'hello world'")
     hello ...
     """
+def d_gx_a():
+    """
+    >>> gx11.append('a')
+    >>> print(gx11)
+    ['a']
+    """
+def d_gx_b():
+    """
+    >>> gx11.append('b')
+    >>> print(gx11)
+    ['b']
+    """
 def d_report():
     """
     >>> # xdoctest: -REPORT_NDIFF
@@ -244,6 +256,11 @@ CONFIGS = {
 }
 
 
+# the --global-exec preamble of every run: executed in front of every doctest that runs anything; the list it creates is
+# each doctest's own
+GLOBAL_EXEC = 'gx11 = []'
+
+
 def load(cfg='none'):
     from xdoctest import core
     with contextlib.redirect_stdout(io.StringIO()), warnings.catch_warnings():
@@ -253,6 +270,7 @@ def load(cfg='none'):
     for e in exs:
         e.mode = 'native'
         e.config['colored'] = False
+        e.config['global_exec'] = GLOBAL_EXEC
         if shared is not None:
             e.config['default_runtime_state'] = shared
     return {e.callname: e for e in exs}
@@ -385,12 +403,13 @@ class RunnerOrderSpec(Spec):
     title = 'doctest_module(all) on modules holding the doctests in every order'
     batch = 4
 
-    def __init__(self, name, max_len, min_len=2):
+    def __init__(self, name, max_len, min_len=2, configs=None):
         self.name = name
         self.max_len = max_len + 1
         self.min_len = min_len
         self.max_cost = 99
-        self.rule = ('default options x all sequences of %d..%d distinct doctests written to a module in that order and run by the native '
+        self.configs = list(configs) if configs else list(CONFIGS)
+        self.rule = ('default options ' + repr(self.configs) + ' x all sequences of %d..%d distinct doctests written to a module in that order and run by the native '
                      'runner; the per-doctest outcome must equal the outcome of the doctest run alone' % (min_len, max_len))
         baselines()
 
@@ -399,7 +418,7 @@ class RunnerOrderSpec(Spec):
 
     def enabled(self, S, hist):
         if S is None:
-            return [('config', c) for c in CONFIGS]
+            return [('config', c) for c in self.configs]
         return [n for n in NAMES if n not in S]
 
     def step(self, S, ev):
@@ -431,7 +450,7 @@ class RunnerOrderSpec(Spec):
             try:
                 with contextlib.redirect_stdout(buf), contextlib.redirect_stderr(buf), warnings.catch_warnings():
                     warnings.simplefilter('ignore')
-                    config = {'colored': False}
+                    config = {'colored': False, 'global_exec': GLOBAL_EXEC}
                     if CONFIGS[cfg] is not None:
                         config['default_runtime_state'] = copy.deepcopy(CONFIGS[cfg])
                     xdoctest.doctest_module(p, command='all', argv=[], verbose=1, style='freeform', config=config)
@@ -484,7 +503,7 @@ class PytestOrderSpec(RunnerOrderSpec):
             with open(os.path.join(d, modname + '.py'), 'w') as f:
                 f.write(src)
             os.environ.pop('XV_F', None)
-            args = ['--xdoctest', '--xdoctest-style=freeform', *harness.PYTEST_ISOLATION_ARGS, '-q', '--rootdir', d, '-c', '/dev/null',
+            args = ['--xdoctest', '--xdoctest-style=freeform', '--xdoctest-global-exec=' + GLOBAL_EXEC, *harness.PYTEST_ISOLATION_ARGS, '-q', '--rootdir', d, '-c', '/dev/null',
                     modname + '.py']
             opts = {'none': None, 'opt-ellipsis': '+ELLIPSIS', 'opt-noskip': '-SKIP,+NORMALIZE_WHITESPACE'}[cfg]
             if opts:
@@ -514,4 +533,4 @@ class PytestOrderSpec(RunnerOrderSpec):
 def specs(tier):
     if tier == 'thorough':
         return [HistorySpec('histories<=4', 4), RunnerOrderSpec('runner-orders<=3', 3), PytestOrderSpec('pytest-orders<=3', 3)]
-    return [HistorySpec('histories<=3', 3), RunnerOrderSpec('runner-orders=2', 2), PytestOrderSpec('pytest-orders=2', 2)]
+    return [HistorySpec('histories<=3', 3), RunnerOrderSpec('runner-orders=2', 2), PytestOrderSpec('pytest-orders=2', 2, configs=['none'])]
